@@ -574,6 +574,7 @@ func genPostingMode(r *vc.Rand) *Scenario {
 		for k := r.Intn(3); k > 0; k-- {
 			op.Meta[vc.Pick(r, []string{"k", "note", "é", "a b"})] = vc.Pick(r, []string{"", "v", "日本", "{\"x\":1}"})
 		}
+		op.Via = vc.Pick(r, []string{"", "", "v2", "v1"})
 		if r.Chance(1, 12) { // near-miss: invalid address / asset -> must be refused as a whole
 			i := r.Intn(len(op.Postings))
 			if r.Bool() {
